@@ -6,7 +6,7 @@ for d in seeded/*/; do
   [ "$n" = "C04_opener_in_chunked_string_leak" ] && c=C05
   git -C /repo apply "$PWD/$d/patch.diff" || { echo "$n APPLY-FAILED"; continue; }
   timeout 3000 ./vcheck $c --tier quick --no-evidence > /tmp/regress_$n.log 2>&1; rc=$?
-  git -C /repo checkout -- .
+  git -C /repo checkout -- . && git -C /repo clean -fdq -- src test
   echo "$n $c exit=$rc violations=$(grep -c '^VIOLATION' /tmp/regress_$n.log) $(tail -1 /tmp/regress_$n.log | cut -c1-90)"
 done
 git -C /repo status --short | grep -v _build
